@@ -5,7 +5,13 @@ K3  corrupt or missing private state degrades to "no attribution".  Encoded from
     append_rewrite_event}, PersistedWorkingLog::{read_initial_attributions, read_all_checkpoints,
     append_checkpoint} over the model file system in which every call may fail and every file may hold
     arbitrary bytes.
-K1  the exit status is the child's: git_handlers::exit_with_status (see ob_exit_status).
+K1  the exit status is the child's: git_handlers::exit_with_status (see ob_exit_status); once git has run, the
+    journal step of every post-command hook (Repository::handle_rewrite_log_event) ends by returning or by a
+    panic (absorbed by the catch_unwind guard around the hook bodies) and never by ending the process itself —
+    under every file-system fault and journal corruption of K3.
+K2  the refusal before git starts is never silent: commands::hooks::commit_hooks::commit_pre_command_hook with a
+    failing pre-commit step either lets git run or exits non-zero after printing a diagnostic, for every
+    combination of -q / --quiet / --porcelain / --dry-run on the command line.
 """
 import itertools
 import z3
@@ -49,6 +55,13 @@ def plan(tier, seed):
         tasks.append(('checkpoints_read', {'kind': kind}))
     for code in ('exit', 'signal'):
         tasks.append(('exit_status', {'kind': code}))
+    for pre in (None, [], ['ev'], ['sym'], ['sym', 'ev'], 'dir'):
+        for fault in (None, 0, 1, 2, 3):
+            tasks.append(('post_hook_journal', {'pre': pre, 'fault': fault}))
+    import itertools as _it
+    for flags in ([], ['-q'], ['--quiet'], ['--porcelain'], ['-m', 'x'], ['-q', '-m', 'x'], ['--dry-run'], ['-q', '--dry-run'], ['-a', '-q']):
+        for pc in ('ok', 'fails', 'bare'):
+            tasks.append(('pre_commit_refusal', {'flags': flags, 'pre_commit': pc}))
     out = []
     jp = [t for t in tasks if t[0] == 'journal_parse']
     B = 10
@@ -90,6 +103,22 @@ def install(M):
     M.models['libc::signal'] = libc_signal
     M.models['libc::unix::raise'] = libc_raise
     M.models['libc::unix::signal'] = libc_signal
+
+    def pre_commit(P, c, args, dt):
+        k = P.state.get('c07_pre_commit', 'ok')
+        if k == 'ok':
+            return ok(unit())
+        msg = 'Cannot run checkpoint on bare repositories' if k == 'bare' else 'working log unreadable'
+        return err(mk_enum(P.M, 'error::GitAiError', 'Generic', pystring(msg)))
+
+    def noop(P, c, args, dt):
+        return unit()
+
+    def default_author(P, c, args, dt):
+        return pystring('A <a@b>')
+    M.env['authorship::pre_commit::pre_commit'] = pre_commit
+    M.env['git::repository::Repository::require_pre_command_head'] = noop
+    M.env['commands::hooks::commit_hooks::get_commit_default_author'] = default_author
 
 
 def mk_event(M, k):
@@ -304,7 +333,9 @@ def ob_exit_status(h, shape):
         h.inputs_struct = {'code': code}
     else:
         sig = Sc(P.input_bv('sig', 32), 32, True)
-        P.assume(z3.And(sig.v >= 1, sig.v <= 64))
+        # what a child can have died of: signals whose default action terminates (not CHLD CONT STOP TSTP TTIN TTOU URG
+        # WINCH, not the two glibc keeps for itself)
+        P.assume(z3.And(sig.v >= 1, sig.v <= 64, z3.Not(z3.Or([sig.v == k for k in (17, 18, 19, 20, 21, 22, 23, 28, 32, 33)]))))
         st = Opaque('ExitStatus', {'code': none(), 'signal': some(sig)})
         h.inputs_struct = {'signal': sig}
     try:
@@ -333,13 +364,167 @@ def ob_batch(h, shape):
     OBLIGATIONS[name](h, sh)
 
 
-OBLIGATIONS = {'journal_parse': ob_journal_parse, 'journal_append': ob_journal_append, 'initial_read': ob_initial_read,
+REPO = 'git::repository::Repository'
+
+
+def mk_repo_c07(M):
+    from mirsym.models.paths import mk_pathbuf
+    pb = lambda x: mk_pathbuf(list(x.encode()))
+    st = storage(M)
+    return mk_struct(M, REPO, global_args=VecV([]), git_dir=pb('/w/.git'), git_common_dir=pb('/w/.git'),
+                     storage=st, pre_command_base_commit=none(), pre_command_refname=none(), pre_reset_target_commit=none(),
+                     workdir=pb('/w'), canonical_workdir=pb('/w'))
+
+
+def ob_post_hook_journal(h, shape):
+    """K1: the journal step of a post-command hook under faults / corruption"""
+    P = h.P
+    M = P.M
+    pre = shape['pre']
+    P.state['fs'] = {'/ai': 'DIR'}
+    if pre == 'dir':
+        P.state['fs']['/ai/rewrite_log/x'] = StringV([])
+    elif pre is not None:
+        text, ids = build_text(h, pre, True, 'p')
+        P.state['fs']['/ai/rewrite_log'] = StringV(text)
+    counter = {'n': 0}
+    fault_at = shape['fault']
+
+    def fault(P2, op, path):
+        if op == 'exists':
+            return False
+        k = counter['n']
+        counter['n'] += 1
+        return fault_at is not None and k == fault_at
+    P.state['fs_fault'] = fault
+    repo = mk_repo_c07(M)
+    h.inputs_struct = {'pre': pre, 'fault_at_fs_call': fault_at}
+    ended = 'returned'
+    try:
+        P.call_named(REPO + '::handle_rewrite_log_event', [Ref(Cell(repo)), mk_event(M, 7), pystring('A <a@b>'), TRUE, FALSE])
+    except Panic:
+        ended = 'panic'       # absorbed by the guard around the hook bodies: git's status stands
+    except ProcessExit as e:
+        ended = 'exit'
+    h.require(ended != 'exit', 'K1-post-hook-never-ends-the-process', 'after git ran, the journal step ended the process itself (git\'s exit status is lost)')
+    h.cover('K1-journal-step-failed', ended == 'panic')
+    h.cover('K1-journal-step-ok', ended == 'returned')
+    h.sample = h.witness()
+
+
+def ob_pre_commit_refusal(h, shape):
+    """K2: commit_pre_command_hook with a failing / succeeding pre-commit step"""
+    P = h.P
+    M = P.M
+    argv = ['commit'] + shape['flags']
+    P.state['c07_pre_commit'] = shape['pre_commit']
+    P.state['fs'] = {'/ai': 'DIR'}
+    repo = mk_repo_c07(M)
+    h.inputs_struct = {'argv': argv, 'pre_commit': shape['pre_commit']}
+    parsed = P.call_named('git::cli_parser::parse_git_cli_args', [SliceRef(VecV([pystring(x) for x in argv]), 0, len(argv))])
+    exited = None
+    ret = None
+    try:
+        ret = P.call_named('commands::hooks::commit_hooks::commit_pre_command_hook', [Ref(Cell(parsed)), Ref(Cell(repo))])
+    except ProcessExit as e:
+        exited = e.code
+    except Panic as e:
+        h.panic('K2-pre-hook-no-panic', e.msg)
+        return
+    said = [e for e in P.events if e[0] == 'eprint']
+    if exited is not None:
+        h.require(isinstance(exited, Sc) and exited.concrete and exited.v != 0, 'K2-refusal-is-non-zero', 'refused before git with status 0')
+        h.require(len(said) >= 1, 'K2-refusal-carries-a-diagnostic', 'git-ai refused `git %s` before git started without printing anything' % ' '.join(argv))
+        h.require(shape['pre_commit'] != 'ok', 'K2-no-refusal-without-a-failure', 'refused although the pre-commit step succeeded')
+    else:
+        h.require(True, 'K2-git-is-allowed-to-run')
+    h.cover('K2-refused', exited is not None)
+    h.cover('K2-let-git-run', exited is None)
+    h.sample = h.witness()
+
+
+OBLIGATIONS = {'post_hook_journal': ob_post_hook_journal, 'pre_commit_refusal': ob_pre_commit_refusal, 'journal_parse': ob_journal_parse, 'journal_append': ob_journal_append, 'initial_read': ob_initial_read,
                'checkpoints_read': ob_checkpoints_read, 'exit_status': ob_exit_status, 'batch': ob_batch}
+
+
+def native_exit_status(native, inp):
+    """run the real proxy (exit_on_completion) on a stand-in git that exits with the code / dies by the signal;
+    -> how the wrapper process itself ended: {'code': n} or {'signal': n}"""
+    import json
+    import os
+    import subprocess
+    import tempfile
+    tmp = tempfile.mkdtemp(prefix='vc07x')
+    try:
+        rec = os.path.join(tmp, 'recgit')
+        with open(rec, 'w') as f:
+            f.write('#!/usr/bin/env python3\nimport os, sys, signal\n'
+                    's = int(os.environ.get("VREC_SIGNAL", "0"))\n'
+                    'if s:\n    signal.signal(s, signal.SIG_DFL) if s not in (9, 19) else None\n    os.kill(os.getpid(), s)\n'
+                    'sys.exit(int(os.environ.get("VREC_EXIT", "0")))\n')
+        os.chmod(rec, 0o755)
+        os.makedirs(os.path.join(tmp, '.git-ai'))
+        json.dump({'git_path': rec}, open(os.path.join(tmp, '.git-ai', 'config.json'), 'w'))
+        env = {'HOME': tmp, 'PATH': os.environ.get('PATH', '')}
+        if 'signal' in inp:
+            env['VREC_SIGNAL'] = str(inp['signal'])
+        else:
+            env['VREC_EXIT'] = str(inp['code'])
+        exe = native.__globals__['replay_binary']()
+        payload = {'args': [{'utf8': 'status'}], 'override': None, 'exit_on_completion': True}
+        pre = 'ulimit -c 0; exec "$0" "$@"'
+        p = subprocess.run(['sh', '-c', pre, exe, 'c06_handoff'], input=json.dumps(payload).encode(), stdout=subprocess.PIPE, stderr=subprocess.PIPE, env=env, timeout=60)
+        if p.returncode < 0:
+            return {'signal': -p.returncode}
+        return {'code': p.returncode}
+    finally:
+        subprocess.call(['rm', '-rf', tmp])
+
+
+def _run_raw(native, kind, payload, judge):
+    """run vreplay and judge by (return code, stdout, stderr): these kernels are about how the process ends"""
+    import json
+    import os
+    import subprocess
+    import tempfile
+    exe = native.__globals__['replay_binary']()
+    home = tempfile.mkdtemp(prefix='vc07h')
+    try:
+        env = dict(os.environ, HOME=home, GIT_AI_DEBUG='0')
+        p = subprocess.run([exe, kind], input=json.dumps(payload).encode(), stdout=subprocess.PIPE, stderr=subprocess.PIPE, env=env, timeout=120)
+        out = p.stdout.decode('utf-8', 'replace')
+        errt = p.stderr.decode('utf-8', 'replace')
+        return {'reproduced': bool(judge(p.returncode, out, errt)), 'rc': p.returncode, 'stderr': errt[-400:]}
+    finally:
+        subprocess.call(['rm', '-rf', home])
+
+
+def replay_exit_status(v, native):
+    inp = v['inputs']
+    r = native_exit_status(native, inp)
+    if 'signal' in inp:
+        return {'reproduced': r != {'signal': inp['signal']}, 'native': r}
+    return {'reproduced': r != {'code': inp['code']}, 'native': r}
 
 
 def replay(v, native):
     inp = v['inputs']
     ob = v['obligation']
+    if ob.startswith('K1-exit') or ob.startswith('K1-signal'):
+        return replay_exit_status(v, native)
+    if ob == 'K1-post-hook-never-ends-the-process':
+        # natively only an unreadable journal can be staged (no fault injector): a directory in its place
+        return _run_raw(native, 'c07_post_hook_journal', {'pre': 'dir'}, lambda rc, out, errt: rc not in (0, 101))
+    if ob.startswith('K2-'):
+        if inp.get('pre_commit') == 'bare':
+            return {'reproduced': False, 'note': 'bare repository case not staged natively'}
+        silent = lambda rc, out, errt: rc not in (0, 101) and 'Pre-commit failed' not in errt and 'pre-commit' not in errt.lower()
+        judge = {'K2-refusal-carries-a-diagnostic': silent,
+                 'K2-refusal-is-non-zero': lambda rc, out, errt: rc == 0 and '"let_git_run"' not in out,
+                 'K2-no-refusal-without-a-failure': lambda rc, out, errt: rc not in (0, 101)}.get(ob)
+        if judge is None:
+            return {'reproduced': False}
+        return _run_raw(native, 'c07_pre_commit_refusal', {'argv': inp['argv'], 'pre_commit': inp['pre_commit']}, judge)
     if 'text' in inp:
         r = native('c07_journal_parse', inp)
     elif 'kind' in inp:
@@ -351,3 +536,13 @@ def replay(v, native):
     if v['kind'] == 'panic':
         return {'reproduced': False, 'native': r}
     return {'reproduced': ob in r.get('failed', []), 'native': r}
+
+
+MUST_COVER = ['K1-journal-step-failed', 'K1-journal-step-ok', 'K2-refused', 'K2-let-git-run']
+
+
+def replay_priority(v):
+    inp = v['inputs']
+    if v['obligation'] == 'K1-post-hook-never-ends-the-process':
+        return 0 if inp.get('pre') == 'dir' and inp.get('fault_at_fs_call') is None else 1
+    return 0
